@@ -1,5 +1,8 @@
-# sourced by every script: offline Go environment with a private build cache
+# sourced by every script: offline Go environment with a private build cache.
+# ROOT is the verif tree the script lives in (/verif, or a `vp run` snapshot of it);
+# the Go build cache and the patched pquerna/otp copy are shared from /verif/.cache.
 export GOFLAGS=-mod=mod GOPROXY=off GOSUMDB=off GOTOOLCHAIN=local
 export GOCACHE=/verif/.cache/gobuild
-export VERIF_ROOT=/verif
+ROOT=$(cd "$(dirname "${BASH_SOURCE[0]}")/.." && pwd)
+export VERIF_ROOT=$ROOT
 export VERIF_REPO=${VERIF_REPO:-/repo}
